@@ -291,6 +291,11 @@ func (w *world) exec(c *taskCtx, op Op) string {
 				panic("harness: corpus: " + err.Error())
 			}
 			m, perr := openflow13.Parse(append([]byte(nil), b...))
+			if perr == nil && op.S&3 == 0 {
+				// what an application does with a decoded message: extend its match (to
+				// reinstall a removed flow, to narrow a flow it was told about)
+				extendMatch(m, op.S)
+			}
 			out := fmt.Sprintf("h=%016x pe=%s", hlib.DeepHash(m), errText(perr))
 			if perr == nil && m != nil {
 				out += " " + encodeOutcome(m)
@@ -396,6 +401,33 @@ func (w *world) checkHeld(c *taskCtx, h *held) {
 		w.violate("registry", "held-result-changed", strings.ToUpper(h.name), fmt.Sprintf("task %d: the result of its lookup of %s changed although only this task holds it: now {class %#x field %d mask %v len %d}, was {class %#x field %d mask %v len %d}",
 			c.id, h.name, h.f.Class, h.f.Field, h.f.HasMask, h.f.Length, h.expect.Class, h.expect.Field, h.expect.HasMask, h.expect.Length))
 		h.expect = *h.f
+	}
+}
+
+// extendMatch adds one or two fields to the match of a decoded message that has one.
+func extendMatch(m any, seed uint64) {
+	var mt *openflow13.Match
+	switch x := m.(type) {
+	case *openflow13.FlowMod:
+		mt = &x.Match
+	case *openflow13.FlowRemoved:
+		mt = &x.Match
+	case *openflow13.PacketIn:
+		mt = &x.Match
+	}
+	if mt == nil {
+		return
+	}
+	r := simrt.NewRNG(seed ^ 0xadd)
+	for i := 1 + r.Intn(2); i > 0; i-- {
+		switch r.Intn(3) {
+		case 0:
+			mt.AddField(*openflow13.NewInPortField(uint32(r.Intn(1 << 16))))
+		case 1:
+			mt.AddField(*openflow13.NewEthTypeField(uint16(r.Intn(1 << 16))))
+		case 2:
+			mt.AddField(*openflow13.NewMetadataField(r.Uint64(), nil))
+		}
 	}
 }
 
